@@ -51,6 +51,20 @@ func newTokenizer(kind string) tokzr {
 		return ctok.NewExpressionTokenizer()
 	case kind == "m":
 		return mtok.NewMustacheTokenizer()
+	case strings.HasPrefix(kind, "C:"), strings.HasPrefix(kind, "D:"):
+		// the same configuration reached through another history of setter calls
+		p := strings.Split(kind, ":")
+		t := csv.NewCsvTokenizer()
+		if kind[0] == 'C' {
+			t.SetFieldSeparators(parseRunes(p[1]))
+			t.SetQuoteSymbols(parseRunes(p[2]))
+		} else {
+			t.SetQuoteSymbols([]rune{'\'', '`', '"'})
+			t.SetFieldSeparators([]rune{'|'})
+			t.SetFieldSeparators(parseRunes(p[1]))
+			t.SetQuoteSymbols(parseRunes(p[2]))
+		}
+		return t
 	case strings.HasPrefix(kind, "c:"):
 		p := strings.Split(kind, ":")
 		t := csv.NewCsvTokenizer()
@@ -296,7 +310,7 @@ func lexSoup(c *Ctx, kind string, maxLex int) []rune {
 	pool := lexGE
 	if kind == "m" {
 		pool = lexM
-	} else if strings.HasPrefix(kind, "c:") {
+	} else if strings.HasPrefix(kind, "c:") || strings.HasPrefix(kind, "C:") || strings.HasPrefix(kind, "D:") {
 		pool = lexC
 	}
 	n := c.Rng.Intn(maxLex + 1)
